@@ -161,7 +161,7 @@ func (this *ItemSet) dependentsClosure(items ItemList) ItemList {
 	// fmt.Printf("dependentsClosure S%d, %s\n", this.setNo, items)
 	for i := 0; i < len(items); i++ {
 		for _, thisItem := range this.Items {
-			if expSym := thisItem.ExpectedSymbol(); expSym != nil && expSym.String() == items[i].Id {
+			if expSym, ok := thisItem.ExpectedSymbol().(*ast.LexRegDefId); ok && expSym.Id == items[i].Id {
 				if items[i].Reduce() {
 					// mv := thisItem.MoveRegDefId(items[i].Id)
 					// for _, mvi := range mv {
